@@ -65,6 +65,24 @@ CHECKS = {
         'own (shallow) size only; sys.getsizeof and tracemalloc are trusted; '
         'size predictions use CPython 3.12 object sizes with 2x slack',
         'DESIGN.md section 2, C08'),
+    'C09': (
+        'library-wide sweep with mutable host containers in every position '
+        '(snapshots, aliasing by result mutation, context-chain snapshots) + '
+        'Hypothesis state machine over evaluation histories',
+        'Generated-input search: (a) every registered definition x fillings x '
+        '{data through $ with input conversion on, off; context variables}: '
+        'deep snapshots (contents and container types) of the data and of '
+        'every context of the host chain before and after (also when the '
+        'evaluation raises), no result container identical to a host '
+        'container, mutating every container of the result leaves the host '
+        'untouched, nothing but $ left in the supplied context; (b) state '
+        'machine: 25 statements x 3 documents evaluated in generated order '
+        '(incl. repeats, both conversion modes, library built by hand '
+        'without finalizer) in fresh children of one shared parent: inputs '
+        'and parent unchanged, equal results on re-evaluation.',
+        'snapshots look at Context._data/_functions of plain contexts; '
+        'granted yaqlized methods are out of scope',
+        'DESIGN.md section 2, C09'),
     'C10': (
         'Hypothesis-generated host documents (round trip) and nested '
         'value-kind expressions under the 4 output-option pairs; type census '
